@@ -17,6 +17,7 @@ import copy
 import logging
 import random
 import re
+import sys
 import time
 from collections import deque
 from datetime import datetime, timedelta
@@ -2146,7 +2147,9 @@ def _compute_arguments_dict_matching_score(args: Any, ref_args: Any) -> float:
     elif args != ref_args:
         return 0.0
 
-    return score
+    # A score of 0.0 means "no match": the product of many fuzzy match factors
+    # must not underflow to it
+    return max(score, sys.float_info.min)
 
 
 def get_event_name_from_element(
